@@ -248,3 +248,37 @@ Proof.
     exact (default_count_last_is_stop prim_ops prim_order_laws prim_grow_laws prim_jitter_laws
              start stop factor j take fuel draws Hd M Lf St NF).
 Qed.
+
+(* the same through backoff_iter, for every non-stalling start *)
+Theorem binary64_default_count_iter_complete : forall start stop factor j take,
+  let p := mkP ApiIter start stop CNone factor j take in
+  must_raise prim_ops p = false -> PrimFloat.ltb PrimFloat.one factor = true -> take <> O ->
+  (stall_at_start start stop factor = true /\
+   forall fuel draws, run prim_ops p (S fuel) draws = mkObs [] (ERaise ValueError))
+  \/
+  (stall_at_start start stop factor = false /\
+   exists fuel n, forall draws, draws_ok prim_ops draws -> (n <= length draws)%nat ->
+     let o := run prim_ops p fuel draws in
+     values_ok prim_ops p (o_vals o) = true /\
+     ((o_end o = EMore /\ length (o_vals o) = take) \/
+      (o_end o = EStop /\
+       last_is prim_ops stop (if jitter_off prim_ops j then o_vals o
+                              else ideal prim_ops stop factor start (length (o_vals o))) = true))).
+Proof.
+  intros start stop factor j take p M Lf Ht.
+  destruct (must_raise_false_parts prim_ops p M) as [V _]. cbn [p p_start p_stop p_factor] in V.
+  destruct (stall_at_start start stop factor) eqn:Sas.
+  - left. split; [reflexivity|]. intros fuel draws.
+    apply (known_means_value_error _ prim_ops prim_order_laws p (S fuel) draws); [|right; exact Ht].
+    rewrite known_guard_exact. cbn [p p_count p_start p_stop p_factor]. now rewrite M, Lf, Sas.
+  - right. split; [reflexivity|].
+    destruct (valid_parts prim_ops start stop factor V) as (H0 & _).
+    destruct (default_count_terminates start stop factor H0) as [fuel Hfuel].
+    exists fuel, (Nat.max take (default_len prim_ops fuel start stop factor)). intros draws Hd Hn.
+    pose proof (run_iter_default_not_fuel_draws prim_ops prim_order_laws
+                  start stop factor j take fuel draws V (Hfuel 1%Z)) as NF.
+    assert (St : stalls prim_ops stop factor start fuel = false).
+    { destruct fuel as [|k]; [reflexivity|]. rewrite stalls_iff_stall_at_start; assumption. }
+    exact (default_count_iter_last_is_stop prim_ops prim_order_laws prim_grow_laws prim_jitter_laws
+             start stop factor j take fuel draws Hd M Lf St Ht (NF ltac:(lia) ltac:(lia))).
+Qed.
